@@ -134,7 +134,10 @@ def validate(cases, tag):
             E[int(m.group(1))] = json.loads(m.group(2).replace('\\"', '"'))
     os.remove(p)
     if len(V) != len(cases):
-        log(r["out"][-3000:])
+        k = r["out"].find("Error:")
+        log(r["out"][k:k + 2500] if k >= 0 else r["out"][-3000:])
+        bad = min(set(range(len(cases))) - set(V))
+        log("first case without verdict:", cases[bad]["sql"])
         raise ToolError(f"result validation: {len(V)}/{len(cases)} verdicts from TLC")
     for i, c in enumerate(cases):
         c["expected"] = E[i]
@@ -669,11 +672,12 @@ def seq_case(rnd):
            "create table t2(a int, b int, c varchar)", "create table t3(a int, b int)"]
     steps = [{"sql": s, "kind": "ddl"} for s in ddl]
     # (no subqueries here: with the real, small row counts of the disk engine their plans panic -- Q8)
-    g = G.Gen(rnd, feat=dict(ENVELOPE, subq=()))
     used_keys = set()
     # primary keys are not enforced unique: half of the key tables get runs of equal keys that span several
     # blocks of one row-set (the key-range scan has to find both ends of such a run)
     dup = pk and rnd.random() < 0.5
+    # (tables of that size are queried without joins: the reference evaluation by TLC is a nested loop)
+    g = G.Gen(rnd, joins=not dup, feat=dict(ENVELOPE, subq=(), derived=0.0 if dup else 0.2))
     for _ in range(rnd.choice([5, 7, 9])):
         k = rnd.random()
         if dup and k < 0.3:
